@@ -34,6 +34,7 @@ def _prof(name: str) -> Prof:
             {
                 'schem': Prof(symbol=1, metavars=2, subst=False),
                 'schem_nt': Prof(symbol=0, svar=False, mu=False, app=False, metavars=2, notations=(P.bot, P.neg, P._and)),
+                'schem_raw': Prof(symbol=0, svar=False, mu=False, app=False, exists=True, metavars=2, raw_inst=True),
                 'inst': Prof(symbol=1, metavars=1),
                 'val': Prof(symbol=0, metavars=1, mu=False, app=False),
                 'arg': Prof(symbol=0, svar=False, mu=False, app=False, metavars=1, notations=(P.bot, P.neg)),
@@ -204,9 +205,13 @@ def levels(tier: str) -> list[dict]:
     for n in ([1, 2, 3] if q else [1, 2, 3, 4]):
         L.append(dict(label=f'complete/schem/n={n},val<=2', module=M, fn='h_complete', kwargs=dict(n=n, m=2, prof='schem'), budget_s=bud, required=n <= 3))
         L.append(dict(label=f'complete/notation/n={n},val<=2', module=M, fn='h_complete', kwargs=dict(n=n, m=2, prof='schem_nt'), budget_s=bud, required=n <= 3))
+    for n in ([3, 4] if q else [3, 4, 5]):
+        L.append(dict(label=f'complete/partial-instantiate/n={n},val<=1', module=M, fn='h_complete', kwargs=dict(n=n, m=1, prof='schem_raw'), budget_s=bud, required=n <= 4, twin=False))
     L.append(dict(label='equations/2 eqs,n<=2,val<=1', module=M, fn='h_eqs', kwargs=dict(n=2 if q else 3, m=1), budget_s=bud, required=True))
     for i in range(n_notations()):
-        L.append(dict(label=f'notation[{i}]/args<={2 if q else 3}', module=M, fn='h_notation', kwargs=dict(idx=i, m=2 if q else 3), budget_s=bud, required=True, twin=(i in (1, 3))))
+        ar = _notations()[i].arity
+        m = 2 if (q or ar >= 3) else 3
+        L.append(dict(label=f'notation[{i}:{_notations()[i].label}]/args<={m}', module=M, fn='h_notation', kwargs=dict(idx=i, m=m), budget_s=bud, required=True, twin=(i in (1, 3))))
     for n in (0, 1, 2, 3):
         L.append(dict(label=f'nary/n={n}', module=M, fn='h_nary', kwargs=dict(n=n, m=2), budget_s=bud, required=True, twin=(n == 2)))
     return L
